@@ -45,6 +45,14 @@ func init() {
 		Required:    req,
 		Families: func(c *mon.Config) []mon.Family {
 			return []mon.Family{
+				{Name: "cold-start", N: 1, Serial: true, Run: func(w *mon.W, _ int) {
+					for _, b := range [][]uint64{nil, {}, {^uint64(0)}, {0}, {^uint64(0), ^uint64(0)}, {0, 0}, {1 << 63}} {
+						if !c01Check(w, b) {
+							return
+						}
+					}
+					w.Bucket("cold-start")
+				}},
 				{Name: "extreme-product", N: 1 + 6 + 36 + 216 + c.Pick(1000, 100000), Run: c01Product},
 				{Name: "byte-lanes", N: 8 * 3, Run: c01Lanes},
 				{Name: "zoo", N: c.Pick(60000, 6000000), Run: c01Zoo},
